@@ -148,6 +148,9 @@ func (this *UTFCodec) Forward(src, dst []byte) (uint, uint, error) {
 		s := packUTF(src[i:], &val)
 		res := s != 0
 		// Validation of longer sequences
+		// Second byte in [0x80..0xBF]: validateUTF does not see the second byte
+		// of a sequence that starts just before the end of the validated range
+		res = res && ((s < 3) || ((src[i+1] & 0xC0) == 0x80))
 		// Third byte in [0x80..0xBF]
 		res = res && ((s != 3) || ((src[i+2] & 0xC0) == 0x80))
 		// Third and fourth bytes in [0x80..0xBF]
